@@ -125,7 +125,10 @@ Definition writes (a : str) (o : op) : Prop :=
   | Get _ => False
   | Put a' _ => a' = a
   | Delete a' => a' = a
+  | SetCs _ => False
   end.
+
+Definition is_setcs (o : op) : Prop := match o with SetCs _ => True | _ => False end.
 
 (* top-level value of key [k] in the file *)
 Definition file_top (k : str) (f : option fdoc) : option tval :=
@@ -281,7 +284,7 @@ Section Proofs.
   Lemma step_cache_untouched st o a :
     ~ writes a o -> lookup a (cache_of (fst (step st o))) = lookup a (cache_of st).
   Proof.
-    intro NW. destruct o as [a'|a' c|a']; simpl in *.
+    intro NW. destruct o as [a'|a' c|a'|s']; simpl in *; [| | |reflexivity].
     - reflexivity.
     - destruct (put_accepts a' c); [|reflexivity]. unfold cache_of. simpl.
       apply lookup_set_neq. exact NW.
@@ -382,7 +385,7 @@ Section Proofs.
      untouched in memory, and the file either still is the one [st0] saw or is
      exactly the in-memory document with the current cache as its auths *)
   Definition descends (st0 st : state) : Prop :=
-    m_cs (st_mem st) = m_cs (st_mem st0) /\
+    True /\
     (forall k, k <> configFieldAuths -> k <> configFieldCredentialsStore ->
                lookup k (m_content (st_mem st)) = lookup k (m_content (st_mem st0))) /\
     (st = st0 \/
@@ -395,18 +398,18 @@ Section Proofs.
 
   Lemma save_descends st0 st m :
     descends st0 st ->
-    m_content m = m_content (st_mem st) -> m_cs m = m_cs (st_mem st) ->
+    m_content m = m_content (st_mem st) ->
     descends st0 (save m).
   Proof.
-    intros (C & O & _) EC ES. unfold descends, save, cache_of. cbn [st_mem st_file m_content m_cache m_cs].
-    split; [congruence|]. split.
+    intros (_ & O & _) EC. unfold descends, save, cache_of. cbn [st_mem st_file m_content m_cache m_cs].
+    split; [exact I|]. split.
     - intros k N1 N2. rewrite saved_doc_other by assumption. rewrite EC. now apply O.
     - right. split; [reflexivity|]. split; [apply saved_doc_auths|apply saved_doc_cs].
   Qed.
 
   Lemma step_descends st0 st o : descends st0 st -> descends st0 (fst (step st o)).
   Proof.
-    intro D. destruct o as [a|a c|a]; simpl.
+    intro D. destruct o as [a|a c|a|s']; simpl; [| | |now apply (save_descends st0 st)].
     - exact D.
     - destruct (put_accepts a c); simpl; [|exact D].
       now apply (save_descends st0 st).
@@ -438,6 +441,35 @@ Section Proofs.
       repeat split; auto. discriminate.
   Qed.
 
+  Lemma run_cs_untouched h : forall st,
+    (forall o, In o h -> ~ is_setcs o) -> m_cs (st_mem (run st h)) = m_cs (st_mem st).
+  Proof.
+    induction h as [|o h IH]; intros st NS; [reflexivity|].
+    simpl. rewrite IH by (intros o' I; apply NS; now right).
+    assert (N : ~ is_setcs o) by (apply NS; now left).
+    destruct o as [a|a c|a|s']; simpl in *; [reflexivity| | |tauto].
+    - destruct (put_accepts a c); reflexivity.
+    - destruct (lookup a (m_cache (st_mem st))); reflexivity.
+  Qed.
+
+  (* SetCredentialsStore: the file holds the new credsStore (dropped when empty) and nothing else changes *)
+  Lemma setcs_step st s :
+    let st' := fst (step st (SetCs s)) in
+    snd (step st (SetCs s)) = ROk /\
+    cache_of st' = cache_of st /\
+    file_top configFieldCredentialsStore (st_file st') = cs_value s /\
+    file_top configFieldAuths (st_file st') = Some (TAuths (cache_of st)) /\
+    (forall k, k <> configFieldAuths -> k <> configFieldCredentialsStore ->
+               file_top k (st_file st') = lookup k (m_content (st_mem st))).
+  Proof.
+    cbn [step fst snd save st_file file_top cache_of st_mem m_cache].
+    split; [reflexivity|]. split; [reflexivity|].
+    split; [exact (saved_doc_cs {| m_content := m_content (st_mem st); m_cache := m_cache (st_mem st); m_cs := s |})|].
+    split; [exact (saved_doc_auths {| m_content := m_content (st_mem st); m_cache := m_cache (st_mem st); m_cs := s |})|].
+    intros k N1 N2.
+    exact (saved_doc_other {| m_content := m_content (st_mem st); m_cache := m_cache (st_mem st); m_cs := s |} k N1 N2).
+  Qed.
+
   (* ----- C18_preserves_rest ----- *)
   Lemma preserves_rest f st0 h :
     open_store f = Some st0 ->
@@ -446,20 +478,22 @@ Section Proofs.
     (forall k, k <> configFieldAuths -> k <> configFieldCredentialsStore ->
                file_top k (st_file stf) = file_top k f) /\
     (* a configured credsStore *)
-    (forall s, s <> [] -> file_top configFieldCredentialsStore f = Some (TCs s) ->
+    ((forall o, In o h -> ~ is_setcs o) ->
+     forall s, s <> [] -> file_top configFieldCredentialsStore f = Some (TCs s) ->
                file_top configFieldCredentialsStore (st_file stf) = Some (TCs s)) /\
     (* every auths entry no operation of the history addressed *)
     (forall a, (forall o, In o h -> ~ writes a o) ->
                file_entry a (st_file stf) = file_entry a f).
   Proof.
     intros OP stf. destruct (open_store_spec f st0 OP) as (F0 & T0 & E0 & C0).
-    pose proof (run_descends h st0 st0 (descends_refl st0)) as (CS & OT & FILE).
-    fold stf in CS, OT, FILE.
+    pose proof (run_descends h st0 st0 (descends_refl st0)) as (_ & OT & FILE).
+    fold stf in OT, FILE.
     split; [|split].
     - intros k N1 N2. destruct FILE as [SAME|(FE & _ & _)].
       + rewrite SAME, F0. reflexivity.
       + rewrite FE. simpl. rewrite OT by assumption. apply T0.
-    - intros s NE TC. destruct FILE as [SAME|(FE & _ & CE)].
+    - intros NS s NE TC. pose proof (run_cs_untouched h st0 NS) as CS. fold stf in CS.
+      destruct FILE as [SAME|(FE & _ & CE)].
       + rewrite SAME, F0. exact TC.
       + rewrite FE. simpl. rewrite CE, CS, (C0 s TC). destruct s; [contradiction|reflexivity].
     - intros a NW. destruct FILE as [SAME|(FE & AE & _)].
@@ -486,7 +520,7 @@ Section Proofs.
   Lemma fs_run_disabled h : forall st, fs_run true st h = run st (filter not_put h).
   Proof.
     induction h as [|o h IH]; intro st; [reflexivity|].
-    destruct o as [a|a c|a]; simpl; now rewrite IH.
+    destruct o as [a|a c|a|s']; simpl; now rewrite IH.
   Qed.
 
   (* without Puts the cache only loses entries *)
@@ -494,7 +528,7 @@ Section Proofs.
     not_put o = true ->
     lookup a (cache_of (fst (step st o))) = Some e -> lookup a (cache_of st) = Some e.
   Proof.
-    destruct o as [a'|a' c|a']; simpl; intros NP L; [exact L|discriminate|].
+    destruct o as [a'|a' c|a'|s']; simpl; intros NP L; [exact L|discriminate| |exact L].
     destruct (lookup a' (m_cache (st_mem st))) eqn:E; [|exact L].
     unfold cache_of in L. simpl in L.
     destruct (str_eqb a' a) eqn:EA.
@@ -575,7 +609,7 @@ Section Proofs.
     snd (step st o) = snd (mem_step m o) /\ sim (fst (step st o)) (fst (mem_step m o)).
   Proof.
     intros S (PA & OKO). pose proof S as (PK & LK & GD).
-    destruct o as [a|a c|a]; cbn [op_addr] in PA.
+    destruct o as [a|a c|a|s']; cbn [op_addr] in PA; [| | |split; [reflexivity|exact S]].
     - split; [|exact S]. rewrite step_get. cbn [mem_step snd].
       pose proof (get_cache_in_candidates (cache_of st) a) as I.
       rewrite (sim_get st m a S PA) in I. destruct I as [I|[]]. now symmetry.
@@ -624,8 +658,8 @@ Section Proofs.
                 m_cs (st_mem st1) = m_cs (st_mem (run st0 h)).
   Proof.
     intros OP. set (stf := run st0 h).
-    pose proof (run_descends h st0 st0 (descends_refl st0)) as (CS & OT & FILE).
-    fold stf in CS, OT, FILE.
+    pose proof (run_descends h st0 st0 (descends_refl st0)) as (_ & OT & FILE).
+    fold stf in OT, FILE.
     destruct (open_store_spec f st0 OP) as (F0 & T0 & _ & _).
     destruct FILE as [SAME|(FE & AE & CE)].
     - exists st0. rewrite SAME, F0. auto.
@@ -699,7 +733,8 @@ Section Lossy.
     let stf := run b64enc b64dec st0 h in
     (forall k, k <> configFieldAuths -> k <> configFieldCredentialsStore ->
                file_top k (st_file stf) = file_top k f) /\
-    (forall s, s <> [] -> file_top configFieldCredentialsStore f = Some (TCs s) ->
+    ((forall o, In o h -> ~ is_setcs o) ->
+     forall s, s <> [] -> file_top configFieldCredentialsStore f = Some (TCs s) ->
                file_top configFieldCredentialsStore (st_file stf) = Some (TCs s)) /\
     (forall a, (forall o, In o h -> ~ writes a o) ->
                file_entry a (st_file stf) = file_entry a f).
